@@ -66,6 +66,19 @@ CLAIMED['C20'] = dict(
     note='Modelled not verified: dict insertion order, struct.pack of bytes. Identity values are byte strings (ASCII str); '
          'non-ASCII str values are a recorded known finding checked by direct predicates only.')
 
+CLAIMED['C19'] = dict(
+    text='Kernel-checked, for ALL byte/word orders and ALL in-range typed value lists (induction over the list, algebraic '
+         'per-width lemmas): roundtrip_bytes / roundtrip_registers (decode(build(vs)) = vs through the byte string and through '
+         'to_registers/fromRegisters, odd totals included), *_general (bit groups of any length come back zero-filled to whole '
+         'bytes), register_image / register_image_value / register_image_aligned (to_registers = the conventional image: big/big '
+         'network order, little word order reverses the words, little byte order swaps the bytes of each word), '
+         'builder_rejects_out_of_range; counterexamples roundtrip_full_counterexample (bit group not in whole bytes) and '
+         'roundtrip_coils_counterexample (fromCoils drops the word order). The model is compared with the real builder/decoder '
+         'on generated sequences and raw decoder runs each run, and the real bytes/registers with the Lean spec image.',
+    design='6/C19', technique='Lean 4 proof (builder/decoder model vs conventional register image) + differential correspondence',
+    note='Numbers are exchanged as bit patterns; Python number <-> pattern is struct (trusted; NaNs as struct reproduces them). '
+         'Known findings: bits-zero-fill, fromcoils-wordorder.')
+
 PENDING_REASON = 'check not built yet in this revision (work in progress; planned per DESIGN.md section 6)'
 
 def main():
